@@ -712,11 +712,45 @@ def compare(script):
     if len(py) != len(rs):
         return "different number of section traces"
     for i, s in enumerate(script["sections"]):
-        a, b = rename_ids(py[i], s["kind"]), rename_ids(rs[i], s["kind"])
+        pa, ra = py[i], rs[i]
+        if isinstance(ra, list) and ra and ra[-1] == {"ambiguous-call": True}:
+            # the Rust side found a call whose outcome the library itself may decide either way
+            # (decision margin below 1e-4 in the f64 shadow): compare the operations before it
+            k = len(ra) - 1
+            ra = ra[:k]
+            pa = pa[:k] if isinstance(pa, list) else pa
+            stats["labels"]["cut_at_ambiguous_call"] = stats["labels"].get("cut_at_ambiguous_call", 0) + 1
+        a, b = rename_ids(pa, s["kind"]), rename_ids(ra, s["kind"])
         d = first_diff(a, b, f"section {i} ({s['kind']})")
+        if d and s["kind"] in TRACKERS and rust_side_unstable(s, len(ra) if isinstance(ra, list) else None):
+            stats["labels"]["rust_api_itself_unstable"] = stats["labels"].get("rust_api_itself_unstable", 0) + 1
+            continue
         if d:
             return d
     return None
+
+
+TRACKERS = ("sort", "batch_sort", "visual", "batch_visual")
+
+
+def rust_side_unstable(sec, upto):
+    """Safety net behind the margin cut: the property compares the binding with 'the' value the Rust
+    API returns; when the Rust API alone, given the same section again, does not reproduce its own
+    answer (up to the renaming used for the comparison), there is no such value and nothing is claimed."""
+    single = {"sections": [sec]}
+    def once():
+        r = canon(drv.run(single))
+        if not isinstance(r, list) or not r:
+            return None
+        t = r[0]
+        if isinstance(t, list) and upto is not None:
+            t = [x for x in t if x != {"ambiguous-call": True}][:upto]
+        return rename_ids(t, sec["kind"])
+    base = once()
+    for _ in range(12):
+        if first_diff(base, once(), "rust") is not None:
+            return True
+    return False
 
 
 def one(script):
